@@ -272,7 +272,7 @@ def classify(what, outcome):
 
 
 def run(ctx):
-    for i in ctx.indices(600 if ctx.tier == "quick" else 10000, "random"):
+    for i in ctx.indices(2400 if ctx.tier == "quick" else 10000, "random"):
         one(ctx, i)
     ctx.count('class_variants', len(VARIANTS))
 
